@@ -187,3 +187,65 @@ package objects
 
 // unchecked increments of queue usage and forced node bindings are RM-only: no scheduling entry point reaches them
 //@ unreachable schedulingNeverForces props C02 C01 from objects.Queue.TryAllocate objects.Queue.TryReservedAllocate objects.Queue.TryPlaceholderAllocate : objects.Queue.IncAllocatedResource objects.Node.AddAllocation
+
+// ================================================================ C01: node ledger and bind gate
+
+// magnitude assumption (unchecked, reported): quantities that enter a node ledger are far from the int64 limits, so
+// the saturating primitives (proved in C18 over the whole range) act as exact integer arithmetic on three-term sums
+//@ spec mag(r *resources.Resource) bool = forall t Key :: rv(r, t) > -2305843009213693952 && rv(r, t) < 2305843009213693952
+//@ global forall n *Node :: mag(n.totalResource) && mag(n.allocatedResource) && mag(n.occupiedResource)
+//@ global forall a *Allocation :: mag(a.allocatedResource)
+
+//@ spec okR(r *resources.Resource) bool = r != nil && r.Resources != nil
+//@ spec sepR(a *resources.Resource, b *resources.Resource) bool = a != b && (a == nil || b == nil || a.Resources != b.Resources)
+// a resource handed in from outside does not share storage with the node's own four resource objects
+//@ spec sepN(n *Node, r *resources.Resource) bool = sepR(r, n.totalResource) && sepR(r, n.allocatedResource) && sepR(r, n.occupiedResource) && sepR(r, n.availableResource)
+
+//@ invariant[own] Node as inv(sn): sn != nil && okR(sn.totalResource) && okR(sn.allocatedResource) && okR(sn.occupiedResource) && okR(sn.availableResource) && sepR(sn.totalResource, sn.allocatedResource) && sepR(sn.totalResource, sn.occupiedResource) && sepR(sn.totalResource, sn.availableResource) && sepR(sn.allocatedResource, sn.occupiedResource) && sepR(sn.allocatedResource, sn.availableResource) && sepR(sn.occupiedResource, sn.availableResource)
+//@ invariant[L1] Node as inv(sn): forall t Key :: rv(sn.availableResource, t) == rv(sn.totalResource, t) - rv(sn.allocatedResource, t) - rv(sn.occupiedResource, t)
+//@ invariant[maps] Node as inv(sn): sn.allocations != nil
+
+//@ func (sn *Node) notifyListeners()
+//@   props C01
+//@   trusted "listener callbacks (node collection re-sorting) write only node-collection state that no Node contract mentions"
+//@   assigns nothing
+
+//@ func (sn *Node) refreshAvailableResource()
+//@   props C01
+//@   requires inv_own(sn)
+//@   assigns sn.availableResource
+//@   ensures inv_own(sn) && inv_L1(sn)
+//@   ensures[frame] sn.totalResource == old(sn.totalResource) && sn.allocatedResource == old(sn.allocatedResource) && sn.occupiedResource == old(sn.occupiedResource) && unch(sn.totalResource) && unch(sn.allocatedResource) && unch(sn.occupiedResource)
+
+//@ func (sn *Node) UpdateAllocatedResource(delta *resources.Resource)
+//@   props C01
+//@   requires inv(sn) && sepN(sn, delta) && mag(delta)
+//@   assigns sn.availableResource, sn.allocatedResource.Resources[*]
+//@   ensures inv(sn)
+//@   ensures[booked] forall t Key :: rv(sn.allocatedResource, t) == old(rv(sn.allocatedResource, t)) + rv(delta, t)
+//@   ensures[frame] forall t Key :: rv(sn.totalResource, t) == old(rv(sn.totalResource, t)) && rv(sn.occupiedResource, t) == old(rv(sn.occupiedResource, t))
+
+//@ func (sn *Node) addAllocationInternal(alloc *Allocation, force bool) (ok bool)
+//@   props C01 C03
+//@   requires inv(sn) && (alloc != nil ==> okR(alloc.allocatedResource) && sepN(sn, alloc.allocatedResource))
+//@   assigns sn.allocations[*], sn.occupiedResource, sn.allocatedResource.Resources[*], sn.availableResource.Resources[*]
+//@   ensures inv(sn)
+//@   ensures[fits] ok && !force ==> (forall t Key :: has(alloc.allocatedResource, t) ==> rv(alloc.allocatedResource, t) <= posv(old(rv(sn.availableResource, t))))
+//@   ensures[booked] ok ==> (forall t Key :: rv(sn.availableResource, t) == old(rv(sn.availableResource, t)) - rv(alloc.allocatedResource, t))
+//@   ensures[ledger] ok ==> (forall t Key :: rv(sn.allocatedResource, t) == old(rv(sn.allocatedResource, t)) + (alloc.foreign ? 0 : rv(alloc.allocatedResource, t)) && rv(sn.occupiedResource, t) == old(rv(sn.occupiedResource, t)) + (alloc.foreign ? rv(alloc.allocatedResource, t) : 0))
+//@   ensures[nonneg] ok && !force ==> (forall t Key :: rv(sn.availableResource, t) >= min(0, old(rv(sn.availableResource, t))))
+//@   ensures[listed] ok ==> sn.allocations[alloc.allocationKey] == alloc
+//@   ensures[refused] !ok ==> (forall t Key :: rv(sn.availableResource, t) == old(rv(sn.availableResource, t)) && rv(sn.allocatedResource, t) == old(rv(sn.allocatedResource, t)) && rv(sn.occupiedResource, t) == old(rv(sn.occupiedResource, t)))
+//@   ensures[refusedmap] !ok ==> (forall k string :: sn.allocations[k] == old(sn.allocations[k]))
+//@   ensures[capacity] forall t Key :: rv(sn.totalResource, t) == old(rv(sn.totalResource, t))
+//@   ensures[arg] alloc != nil ==> unch(alloc.allocatedResource)
+
+//@ func (sn *Node) TryAddAllocation(alloc *Allocation) (ok bool)
+//@   props C01
+//@   requires inv(sn) && (alloc != nil ==> okR(alloc.allocatedResource) && sepN(sn, alloc.allocatedResource))
+//@   assigns sn.allocations[*], sn.occupiedResource, sn.allocatedResource.Resources[*], sn.availableResource.Resources[*]
+//@   ensures inv(sn)
+//@   ensures[fits] ok ==> (forall t Key :: has(alloc.allocatedResource, t) ==> rv(alloc.allocatedResource, t) <= posv(old(rv(sn.availableResource, t))))
+//@   ensures[capacity] ok ==> (forall t Key :: has(alloc.allocatedResource, t) ==> rv(alloc.allocatedResource, t) <= posv(old(rv(sn.totalResource, t) - rv(sn.allocatedResource, t) - rv(sn.occupiedResource, t))))
+//@   ensures[nonneg] ok ==> (forall t Key :: rv(sn.availableResource, t) >= min(0, old(rv(sn.availableResource, t))))
+//@   ensures[listed] ok ==> sn.allocations[alloc.allocationKey] == alloc
